@@ -130,6 +130,50 @@ def coq_item(c, r, k):
 IMPORTS = cases.SOLVE_IMPORTS.replace("Model.CorrSolve.", "Model.CorrSolve Model.Store.")
 
 
+def restore_sequences(ctx):
+    """restores into the same or a new directory with overrides (class-level restore(), shipped problem): frequency 0 writes
+    nothing and creates no directory; a new frequency / retention applies from the restored iteration on"""
+    from tools.props.c09 import SHIPPED
+    out = []
+    n = 0
+    for pi, solver in ((0, "vi"), (1, "vi")) if ctx.tier == "quick" else ((0, "vi"), (1, "vi"), (0, "pvi"), (1, "savi"), (2, "rvi")):
+        base = ctx.scratch / f"c12r_{pi}_{solver}"
+        d = str(base / "src")
+        cfg = {"gamma": 1.0 if solver == "rvi" else 0.875, "epsilon": 2.0 ** -40, "checkpoint_dir": d, "checkpoint_frequency": 2, "max_checkpoints": 2, "enable_async_checkpointing": False}
+        if solver == "pvi":
+            cfg["period"] = 2
+        a = core.run_worker(ctx, [{"kind": "ckpt_run", "problem": SHIPPED[pi], "solver": solver, "config": cfg, "ops": [["solve", 5]]}])[0]
+        if "error" in a:
+            out.append((f"restore-seq:{solver}:{pi}", f"checkpointed run raised {a['error']}", None))
+            continue
+        if a["dir"]["steps"] != [4, 5]:
+            out.append((f"restore-seq:{solver}:{pi}", f"frequency 2, retention 2, solve(5): directory holds {a['dir']['steps']}, expected [4, 5]", None))
+            continue
+        plans = [("f0-new", {"new_checkpoint_dir": str(base / "n0"), "checkpoint_frequency": 0}, 3, [4, 5], None),
+                 ("keep-new", {"new_checkpoint_dir": str(base / "n1")}, 3, [4, 5], [6, 8]),
+                 ("f3m3-new", {"new_checkpoint_dir": str(base / "n2"), "checkpoint_frequency": 3, "max_checkpoints": 3}, 5, [4, 5], [6, 9, 10]),
+                 ("f0-inplace", {"checkpoint_frequency": 0}, 3, [4, 5], None),
+                 ("f3-inplace", {"checkpoint_frequency": 3}, 4, [6, 9], None)]   # in place LAST: it rewrites the source
+        for name, ov, k, want_src, want_new in plans:
+            n += 1
+            job = {"kind": "ckpt_restore", "solver": solver, "dir": d, "overrides": ov, "ops": [["solve", k]]}
+            r = core.run_worker(ctx, [job])[0]
+            key = f"restore-seq:{name}:{solver}:{pi}"
+            inp = {"first": {"problem": SHIPPED[pi], "solver": solver, "config": cfg}, "restore": job}
+            if "error" in r or r.get("raised"):
+                out.append((key, f"restore with overrides {ov} failed: {r.get('error') or r.get('raised')}: {r.get('message', '')[:200]}", inp))
+                continue
+            if r["dir_after"]["steps"] != want_src:
+                out.append((key, f"after restore({ov}) + solve({k}) the source directory holds {r['dir_after']['steps']}, expected {want_src}", inp))
+            nd = r.get("new_dir")
+            if "new_checkpoint_dir" in ov:
+                if want_new is None and nd and nd["exists"]:
+                    out.append((key, f"restore with checkpoint_frequency=0: the new directory was created and holds {nd['steps']}", inp))
+                if want_new is not None and (not nd or nd["steps"] != want_new):
+                    out.append((key, f"after restore({ov}) + solve({k}) the new directory holds {nd and nd['steps']}, expected {want_new}", inp))
+    return out, n
+
+
 def run(ctx, build):
     grid = gen(ctx)
     dirs = [str(ctx.scratch / f"ck{i}" / "run") for i in range(len(grid))]
@@ -164,9 +208,12 @@ def run(ctx, build):
             corr.append({"what": "model evaluation failed", "detail": e})
         for i in failing:
             corr.append({"what": "model store and checkpoint directory disagree", "seed": meta[i]["seed"], "input": {"case": meta[i]}})
+    rs_viols, n_rs = restore_sequences(ctx)
+    for key, msg, inp in rs_viols:
+        viols.append({"key": key, "what": msg, "input": {"restore_sequence": inp}})
     nontriv = {(c["solver"], c["seed"], c["f"], c["m"]) for c, r in zip(grid, res) if "error" not in r and c["f"] > 0 and len(r["saves"]) > c["m"]}
     cov = {
-        "evaluations": len(grid), "distinct_nontrivial": len(nontriv), "restores_of_retained_steps": len(rjobs),
+        "evaluations": len(grid) + n_rs, "restore_with_override_sequences": n_rs, "distinct_nontrivial": len(nontriv), "restores_of_retained_steps": len(rjobs),
         "rule": "fresh process per experiment: solver x frequency in {0,1,2,3,5,50} x max_checkpoints in {1,2,3,10} x sync/async x 1-3 solve() calls; directory listed after "
                 "wait_until_finished, oldest and newest retained step restored in further fresh processes; non-trivial = more save calls than max_checkpoints",
         "samples": [{"solver": c["solver"], "f": c["f"], "m": c["m"], "async": c["async"], "ks": c["ks"], "save_calls": [s["step"] for s in r.get("saves", [])],
@@ -185,6 +232,9 @@ def replay(ctx, build, data):
     inp = data.get("violation", {}).get("input")
     if not inp:
         return {"fails": False, "note": "no concrete input"}
+    if "restore_sequence" in inp:
+        got, _ = restore_sequences(ctx)
+        return {"fails": bool(got), "why": [g[1] for g in got][:3]}
     c = inp["case"]
     d = str(ctx.scratch / "replay" / "run")
     r = core.run_worker(ctx, [job_of(c, d)])[0]
